@@ -45,6 +45,14 @@ Definition finish (x : var) (s : store) : store := if ended x s then s else End 
 Definition indexed {A : Type} (l : list A) : list (nat * A) := combine (seq 0 (length l)) l.
 Definition get_ev (v : val) (a : nat) (s : store) : store := match v with VO o => Get o a :: s | _ => s end.
 
+(* the scratch list of the Exists call that was opened as frame [n] *)
+Fixpoint notes (n : nat) (s : store) : list (list (option val)) :=
+  match s with
+  | [] => []
+  | Note m key :: s' => if Nat.eqb n m then key :: notes n s' else notes n s'
+  | _ :: s' => notes n s'
+  end.
+
 Section Trace.
   Variable W : world.
   Variable D : domains.
@@ -66,7 +74,46 @@ Section Trace.
     | OAttr e a => tr_opnd e b (fun p s1 => k (fst p, getattr W (snd p) a) (get_ev (snd p) a s1)) s
     end.
 
-  (* conditions, node by node as in symbolic.py (Comparator, AND, ElseIf, Union, Not); quantifiers are outside this model *)
+  (* ---- ForAll._evaluate__: the loop over the values of the universal variable.  The solution set is a pure function of
+     the values seen so far (computed with the list-monad model [evalc] = Eval.eval c); the EVENTS are those of
+     - get_all_candidate_solutions for the first value: the condition is evaluated completely ([drain_full]),
+     - evaluate_condition for every candidate under every further value: the condition's generator is started, its FIRST
+       result is looked at and the generator is abandoned ([drain_first]) -- whatever it enumerated stays half pulled,
+     - [break] as soon as no candidate is left: the universal variable's generator is abandoned too (no [End]). ---- *)
+  Section ForAllLoop.
+    Variable trc : binds -> (res -> store -> store * signal) -> store -> store * signal.
+    Variable evalc : binds -> list res.
+    Variable y : var.
+    Variable others : list var.
+
+    Definition drain_full (b : binds) (s : store) : store := fst (trc b (fun _ s1 => (s1, Continue)) s).
+    Definition drain_first (b : binds) (s : store) : store := fst (trc b (fun _ s1 => (s1, Stop)) s).
+    Definition candidates (bv : binds) : list binds :=
+      map (fun p : res => restrict others (fst p)) (filter (fun p : res => negb (snd p)) (evalc bv)).
+    Definition narrow (bv : binds) (ss : list binds) : list binds :=
+      filter (fun s1 => first_true (evalc (bv ++ s1))) ss.
+    Definition narrow_events (bv : binds) (ss : list binds) (s : store) : store :=
+      fold_left (fun s0 s1 => drain_first (bv ++ s1) s0) ss s.
+    (* one value of the universal variable *)
+    Definition fa_step (bv : binds) (S : option (list binds)) (s : store) : list binds * store :=
+      match S with
+      | None => (candidates bv, drain_full bv s)
+      | Some ss => (narrow bv ss, narrow_events bv ss s)
+      end.
+    Fixpoint fa_loop (b : binds) (ivs : list (nat * val)) (S : option (list binds)) (s : store)
+      : option (list binds) * store :=
+      match ivs with
+      | [] => (S, finish y s)
+      | iv :: rest =>
+          let r := fa_step ((y, snd iv) :: b) S (touch y (fst iv) s) in
+          match fst r with
+          | [] => (Some [], snd r)
+          | _ => fa_loop b rest (Some (fst r)) (snd r)
+          end
+      end.
+  End ForAllLoop.
+
+  (* conditions, node by node as in symbolic.py (Comparator, AND, ElseIf, Union, Not, Exists, ForAll) *)
   Fixpoint tr_cond (c : cond) (b : binds) (k : res -> store -> store * signal) (s : store) : store * signal :=
     match c with
     | CCmp op l r =>
@@ -80,11 +127,36 @@ Section Trace.
         tr_cond l b (fun p s1 => if snd p then tr_cond r (fst p) k s1 else k (fst p, false) s1) s
     | CUnion l r =>
         (* since 6dfdafd the second pass hands on only the TRUE results of the right operand; the false ones are
-           produced (their events happen) and dropped *)
+           produced (their events happen) and dropped; [Pass] marks the moment the second pass begins (bookkeeping) *)
         andthen (tr_cond l b (fun p s1 => if snd p then tr_cond r (fst p) k s1 else k (fst p, false) s1) s)
-                (tr_cond r b (fun p s1 => if snd p then (s1, Continue) else k p s1))
+                (fun s' => tr_cond r b (fun p s1 => if snd p then (s1, Continue) else k p s1) (Pass :: s'))
     | CNot c => tr_cond c b (fun p => k (fst p, negb (snd p))) s
-    | CExists _ _ | CForAll _ _ => (s, Continue)
+    | CExists e c =>
+        (* Exists._evaluate__: a lazy filter over the condition's results with a scratch list: false results are skipped, a
+           true result is handed on iff the bindings of the OTHER variables were not handed on before in this call.
+           The scratch list lives in the log as [Note] entries of this call's frame (opened with [Frame]). *)
+        let others := exists_others e c in
+        let fid := length s in
+        tr_cond c b (fun p s1 =>
+                       if snd p then (s1, Continue)
+                       else let key := map (lookup (fst p)) others in
+                            if existsb (key_eqb key) (notes fid s1) then (s1, Continue)
+                            else k (fst p, false) (Note fid key :: s1))
+                (Frame fid :: s)
+    | CForAll y c =>
+        let others := remove_var y (cond_vars c) in
+        match lookup b y with
+        | Some _ =>
+            (* the universal variable is already bound: one round *)
+            let r := fa_step (tr_cond c) (eval W D c) others b None s in
+            each k (map (fun s1 => (s1 ++ b, false)) (fst r)) (snd r)
+        | None =>
+            let r := fa_loop (tr_cond c) (eval W D c) y others b (indexed (D y)) None s in
+            match fst r with
+            | None => k (b, false) (snd r)                       (* no value at all: holds vacuously *)
+            | Some ss => each k (map (fun s1 => (s1 ++ b, false)) ss) (snd r)
+            end
+        end
     end.
 
   (* QueryObjectDescriptor.evaluate_selected_variables (since 32abf51): lazy nested loops over the selected expressions,
